@@ -51,6 +51,68 @@ func runRaft(c Case, o *vt.Obs) *vt.Failure {
 		vt.Inconclusive("C13 raft store fixture: " + err.Error())
 		return nil
 	}
+	return runRaftOn(c, o, []*kv.RaftStore{rs})
+}
+
+// TestC13Cluster: the same histories on a real THREE-node metadata raft group, one RaftStore per node.  The operations are sequential
+// (each is acknowledged before the next starts) but go through different nodes in turn - a lease handed from node to node, a client
+// that alternates nodes: the compare-and-set rule is about the key's CURRENT version, whichever node the update is proposed through
+// and however far that node's own copy lags.  Lookups go through the node that made the latest update (its copy has applied it).
+var (
+	rcOnce   sync.Once
+	rcFx     []*enginefx.Fixture
+	rcStores []*kv.RaftStore
+	rcErr    error
+)
+
+func runRaftCluster(c Case, o *vt.Obs) *vt.Failure {
+	rcOnce.Do(func() {
+		rcFx, rcErr = enginefx.StartCluster(3, enginefx.Opts{})
+		if rcErr != nil {
+			return
+		}
+		var wg sync.WaitGroup
+		errs := make([]error, len(rcFx))
+		rcStores = make([]*kv.RaftStore, len(rcFx))
+		for i, f := range rcFx {
+			rcStores[i] = &kv.RaftStore{NodeHost: f.E.NodeHost, ClusterID: 3000}
+			wg.Add(1)
+			go func(i int, f *enginefx.Fixture) {
+				defer wg.Done()
+				errs[i] = rcStores[i].Start(kv.RaftConfig{NodeID: f.Cfg.NodeID, ElectionRTT: 10, HeartbeatRTT: 1, InitialMembers: f.Cfg.InitialMembers})
+			}(i, f)
+		}
+		wg.Wait()
+		for _, e := range errs {
+			if e != nil {
+				rcErr = e
+				return
+			}
+		}
+		for i := 0; i < 600; i++ {
+			ready := true
+			for _, st := range rcStores {
+				if !st.HasLeader() {
+					ready = false
+				}
+			}
+			if ready {
+				return
+			}
+			sleepMs(10)
+		}
+		rcErr = errors.New("3-node metadata store has no leader")
+	})
+	if rcErr != nil {
+		vt.Inconclusive("C13 raft cluster fixture: " + rcErr.Error())
+		return nil
+	}
+	o.Label("three-node-metadata-raft-group")
+	return runRaftOn(c, o, rcStores)
+}
+
+func runRaftOn(c Case, o *vt.Obs, stores []*kv.RaftStore) *vt.Failure {
+	rs := stores[0] // the node lookups go through: the one that made the latest update
 	prefix := fmt.Sprintf("/case%d", rsCase.Add(1))
 	model := map[string]mpair{}
 	var maxVer uint64
@@ -60,6 +122,7 @@ func runRaft(c Case, o *vt.Obs) *vt.Failure {
 		cur, exists := model[key]
 		switch op.Kind {
 		case "set", "delete":
+			rs = stores[(i+len(op.Key)+len(op.Value))%len(stores)] // updates go through the nodes in turn
 			var ver uint64
 			switch op.VerMode {
 			case "current":
@@ -74,6 +137,11 @@ func runRaft(c Case, o *vt.Obs) *vt.Failure {
 			wantOK := !exists || ver == cur.Ver
 			if op.Kind == "set" {
 				p, err := rs.Set(key, op.Value, ver)
+				if err != nil && !errors.Is(err, kv.ErrVersionMismatch) {
+					// a proposal that timed out / was dropped says nothing about the compare-and-set rule (and leaves the model in doubt)
+					vt.Inconclusive("C13 raft store update: " + err.Error())
+					return nil
+				}
 				if wantOK {
 					if err != nil {
 						return vt.Failf(prop+"/cas-rejected-valid", i, "RaftStore.Set(%q, ver %d) with current version %d (exists %v): %v", key, ver, cur.Ver, exists, err)
@@ -99,6 +167,10 @@ func runRaft(c Case, o *vt.Obs) *vt.Failure {
 				}
 			} else {
 				err := rs.Delete(key, ver)
+				if err != nil && !errors.Is(err, kv.ErrVersionMismatch) && !errors.Is(err, kv.ErrNotExist) {
+					vt.Inconclusive("C13 raft store update: " + err.Error())
+					return nil
+				}
 				if wantOK {
 					if err != nil {
 						return vt.Failf(prop+"/cas-rejected-valid", i, "RaftStore.Delete(%q, ver %d) with current version %d (exists %v): %v", key, ver, cur.Ver, exists, err)
@@ -154,6 +226,8 @@ func runRaft(c Case, o *vt.Obs) *vt.Failure {
 	return nil
 }
 
-func TestC13Raft(t *testing.T)        { vt.Check(t, prop, genCase, runRaft) }
-func TestC13RaftReplay(t *testing.T)  { vt.Replay(t, prop, runRaft) }
-func TestC13RaftRegress(t *testing.T) { vt.Regress(t, prop, "testdata", runRaft) }
+func TestC13Raft(t *testing.T)          { vt.Check(t, prop, genCase, runRaft) }
+func TestC13Cluster(t *testing.T)       { vt.Check(t, prop, genCase, runRaftCluster) }
+func TestC13ClusterReplay(t *testing.T) { vt.Replay(t, prop, runRaftCluster) }
+func TestC13RaftReplay(t *testing.T)    { vt.Replay(t, prop, runRaft) }
+func TestC13RaftRegress(t *testing.T)   { vt.Regress(t, prop, "testdata", runRaft) }
